@@ -90,7 +90,35 @@ func NewFS() *simos.FS {
 	wal.DisableRecoveryLogs = true
 	// the replication package logs several lines per replicated entry at INFO
 	log.SetLevel(log.LevelFatal)
+	kept = kept[:0]
 	return fs
+}
+
+// What Get returned belongs to the caller, who reads it whenever it likes: the
+// first values a run reads are kept (the returned slice itself and a copy made
+// at that moment) and compared again when the run is over (Result.Absorb).
+type keptRead struct {
+	key       string
+	got, then []byte
+}
+
+var kept []keptRead
+
+func keepRead(k, v []byte) {
+	if len(kept) < 256 && len(v) > 0 {
+		kept = append(kept, keptRead{string(k), v, append([]byte(nil), v...)})
+	}
+}
+
+// KeptReadChanged reports the first kept value that no longer holds the bytes
+// it held when Get returned it.
+func KeptReadChanged() string {
+	for _, r := range kept {
+		if !bytes.Equal(r.got, r.then) {
+			return fmt.Sprintf("the value Get(%s) returned held %s when the call returned and holds %s at the end of the run", Q([]byte(r.key)), Q(r.then), Q(r.got))
+		}
+	}
+	return ""
 }
 
 // DBDir is where a node keeps its database.
@@ -376,5 +404,6 @@ func GetKey(e *engine.EngineFacade, k []byte) ([]byte, bool, error) {
 	if v == nil {
 		v = []byte{}
 	}
+	keepRead(k, v)
 	return v, true, nil
 }
